@@ -16,12 +16,14 @@ from . import core, cartio, refpng, lexref
 CFG = '''SPECIFICATION Spec
 CONSTANTS MaxSteps = %d
 NSeq = %d
+Mode = "%s"
 CONSTRAINT Emit
 CHECK_DEADLOCK FALSE
 '''
 MC = '''SPECIFICATION MCSpec
 CONSTANTS MaxSteps = 2
 NSeq = 1
+Mode = "all"
 INVARIANT ProgramsOnlyFromSources
 PROPERTY FailureIsNoop
 PROPERTY PictureStable
@@ -32,7 +34,7 @@ PROG = {'progA': b'-- cart a\n-- by a\nfunction _update()\n ta = (ta or 0) + 1\n
         'progB': b'-- cart b\n-- by b\nlocal tb = {1, 2, 3}\nfunction _init()\n for i = 1, #tb do tb[i] *= 2 end\nend\nfunction _draw()\n cls(1) print(tb[1] + tb[2], 0x10, 0b1, 8)\nend\n'}
 PAT = {'A': (3, 10), 'B': (5, 77)}
 REG = {'gfx': (0, 0x2000), 'map': (0x2000, 0x3000), 'gff': (0x3000, 0x3100), 'music': (0x3100, 0x3200), 'sfx': (0x3200, 0x4300)}
-PATHS = ["a.p8", "b.p8.png", "out.p8", "out.p8.png", "a_fmt.p8", "b_fmt.p8.png", "out_fmt.p8", "out_fmt.p8.png"]
+PATHS = ["a.p8", "b.p8.png", "out.p8", "out.p8.png", "a_fmt.p8", "b_fmt.p8.png", "out_fmt.p8", "out_fmt.p8.png", "c.p8.png"]
 _C = {}
 
 
@@ -69,10 +71,12 @@ def consts():
         w, h, ch, rows = refpng.decode_png(open(p8png.EMPTY_LABEL_FNAME, 'rb').read())
         _C['blank_upper'] = [bytes(x & 0xfc for x in r) for r in rows] if ch == 4 else None
         _C['picB_upper'] = [bytes(x & 0xfc for x in r) for r in _C['picB_rows']]
+        _C['picC_rows'] = [bytes(rnd.randrange(256) for _ in range(160 * 4)) for _ in range(205)]
+        _C['picC_upper'] = [bytes(x & 0xfc for x in r) for r in _C['picC_rows']]
     return _C
 
 
-def make_sandbox(tmp):
+def make_sandbox(tmp, mode='all'):
     from pico8.game import file as gfile
     c = consts()
     S = tempfile.mkdtemp(prefix='sys_', dir=tmp)
@@ -80,6 +84,10 @@ def make_sandbox(tmp):
     with open(os.path.join(S, 'b.p8.png'), 'wb') as f:
         f.write(refpng.encode_png(160, 205, c['picB_rows']))
     gfile.to_file(cartio.make_game(mem_for('B'), PROG['progB'], None, 16), os.path.join(S, 'b.p8.png'))
+    if mode == 'png':
+        with open(os.path.join(S, 'c.p8.png'), 'wb') as f:
+            f.write(refpng.encode_png(160, 205, c['picC_rows']))
+        gfile.to_file(cartio.make_game(mem_for('B'), PROG['progB'], None, 16), os.path.join(S, 'c.p8.png'))
     return S
 
 
@@ -110,7 +118,7 @@ def abstract(S):
             try:
                 w, h, ch, rows = refpng.decode_png(open(fp, 'rb').read())
                 up = [bytes(x & 0xfc for x in r) for r in rows]
-                e['label'] = 'picB' if up == c['picB_upper'] else 'blank' if up == c['blank_upper'] else 'other'
+                e['label'] = 'picB' if up == c['picB_upper'] else 'picC' if up == c['picC_upper'] else 'blank' if up == c['blank_upper'] else 'other'
             except Exception:
                 e['label'] = 'invalid-png'
         else:
@@ -125,6 +133,9 @@ def run_cmd(S, cmd):
     from pico8.lua import lua
     c = cmd['c']
     src = os.path.join(S, cmd['src'])
+    if c == 'cp':
+        shutil.copyfile(src, os.path.join(S, cmd['dst']))
+        return 0, ''
     if c == 'writep8':
         argv, wcls = ['writep8', src], lua.LuaEchoWriter
     elif c == 'luamin':
@@ -156,9 +167,9 @@ def run_cmd(S, cmd):
 
 
 def _history(item):
-    steps, tmp = item
+    steps, tmp, mode = item
     core.quiet_picotool()
-    S = make_sandbox(tmp)
+    S = make_sandbox(tmp, mode)
     out = []
     prev = abstract(S)
     for s in steps:
@@ -195,25 +206,25 @@ def diff_fs(want, got):
 FOCUS = {
     'C13': lambda cmd, d: cmd['c'] == 'build' and cmd['ok'],
     'C11': lambda cmd, d: not cmd['ok'],
-    'C04': lambda cmd, d: cmd['ok'] and cmd['dst'].endswith('.png') and d[0] == cmd['dst'],
+    'C04': lambda cmd, d: cmd['ok'] and cmd['c'] != 'cp' and cmd['dst'].endswith('.png') and d[0] == cmd['dst'],
     'C03': lambda cmd, d: cmd['ok'] and cmd['c'] == 'writep8',
     'C01': lambda cmd, d: cmd['ok'] and cmd['c'] == 'luamin' and d[1] == 'lua',
     'C09': lambda cmd, d: cmd['ok'] and cmd['c'].startswith('luafmt') and d[1] == 'lua',
 }
 
 
-def run(ctx, focus, nseq=None, depth=4):
+def run(ctx, focus, nseq=None, depth=4, mode='all'):
     """Executes NSeq random command histories of System.tla against the real CLI and reports the
     mismatches that concern `focus`. Returns (steps executed, steps agreeing)."""
     nseq = nseq or (24 if ctx.quick else 600)
     if not any(r.get('name') == 'MC_System' for r in ctx.mc_results):
         ctx.model_check('System', MC, name='MC_System', workers=8)
-    r = ctx.tlc('System', CFG % (depth, nseq), name='GenSystem', extra=['-seed', str(ctx.seed + 17)])
+    r = ctx.tlc('System', CFG % (depth, nseq, mode), name='GenSystem_' + mode, extra=['-seed', str(ctx.seed + 17)])
     by = {}
     for x in r.jsons:
         by.setdefault(x['sid'], []).append(x)
     hists = [sorted(v, key=lambda x: x['step']) for k, v in sorted(by.items())]
-    res = core.parmap(_history, [(h, ctx.tmp) for h in hists], procs=16, chunksize=1)
+    res = core.parmap(_history, [(h, ctx.tmp, mode) for h in hists], procs=16, chunksize=1)
     total = agree = 0
     for h, obs in zip(hists, res):
         for k, (s, o) in enumerate(zip(h, obs)):
@@ -235,8 +246,8 @@ def run(ctx, focus, nseq=None, depth=4):
                 break
             if d:
                 break       # the model and the directory have diverged: later steps of this history are not comparable
-    ctx.notes['system_history_steps'] = total
-    ctx.notes['system_history_steps_agreeing'] = agree
+    ctx.notes['system_history_steps' + ('' if mode == 'all' else '_' + mode)] = total
+    ctx.notes['system_history_steps_agreeing' + ('' if mode == 'all' else '_' + mode)] = agree
     ctx.traces += agree
     ctx.nontrivial += agree
     ctx.evaluations += total
